@@ -36,6 +36,13 @@ func c17Source(k int, lv int) map[string]string {
 	meth := fmt.Sprintf("func (t *T) M() int {\n\tz := %d\n%s\treturn z - z + %d*10 + t.X\n}\n\n", k, filler, k) +
 		fmt.Sprintf("func (t *T) M1(a int) int {\n\tz := %d\n%s\treturn z - z + %d*10 + t.X + a - a\n}\n\n", k, filler, k) +
 		fmt.Sprintf("func (t *T) MV(a int, more ...int) int {\n\tz := %d\n%s\treturn z - z + %d*10 + t.X + len(more) - len(more)\n}\n\n", k, filler, k)
+	// a function whose PARAMETER LIST differs between the versions (one parameter, two, variadic)
+	sig := map[int]string{
+		1: "func Sig(a int) int {\n\treturn 1000 + a\n}\n\nfunc CallSig() int { return Sig(1) }\n\n",
+		2: "func Sig(a int, b int) int {\n\treturn 2000 + a + b\n}\n\nfunc CallSig() int { return Sig(1, 2) }\n\n",
+		3: "func Sig(xs ...int) int {\n\treturn 3000 + len(xs)\n}\n\nfunc CallSig() int { return Sig(1, 2, 3) }\n\n",
+	}[k]
+	tag += sig
 	typ := "type T struct {\n\tX int\n\tH func() int\n}\n\n"
 	vars := fmt.Sprintf("var Counter int\nvar Base int = %d\nvar Inst *T\nvar BM func() int\nvar BM1 func(int) int\nvar BMV func(int, ...int) int\nvar Any any\nvar Sh Shape\nvar Err error\n\ntype Shape interface {\n\tM() int\n}\n\n", 100+k)
 	rest := `func Bump() int {
@@ -121,6 +128,24 @@ func c17Replay(c *Ctx, hist []reloadStep, lv int) {
 			check = false
 		case "call-direct":
 			got, err = call1("main.Tag")
+			if err == nil && got == st.Want {
+				// the function whose parameter list changes with the version: through script code and from the host
+				want := map[int]int{1: 1001, 2: 2003, 3: 3003}[st.Want]
+				var g2 int
+				g2, err = call1("main.CallSig")
+				if err == nil && g2 != want {
+					fail(i, fmt.Sprintf("CallSig() returned %d, version %d gives %d", g2, st.Want, want))
+					return
+				}
+				if err == nil {
+					args := map[int][]goat.Value{1: {goat.Int(1)}, 2: {goat.Int(1), goat.Int(2)}, 3: {goat.Int(1), goat.Int(2), goat.Int(3)}}[st.Want]
+					g2, err = call1("main.Sig", args...)
+					if err == nil && g2 != want {
+						fail(i, fmt.Sprintf("host Call of Sig returned %d, version %d gives %d", g2, st.Want, want))
+						return
+					}
+				}
+			}
 		case "capture-fv":
 			fv = vm.Get("main.Tag")
 			check = false
